@@ -158,6 +158,12 @@ class _Renamer(ast.NodeTransformer):
         return node
 
 
+def _vararg_only_forwarded(fn, name: str) -> bool:
+    """The *args parameter is only ever splatted into calls (`f(*args)`)."""
+    splats = {id(x.value) for c in ast.walk(fn) if isinstance(c, ast.Call) for x in c.args if isinstance(x, ast.Starred) and isinstance(x.value, ast.Name) and x.value.id == name}
+    return all(id(n) in splats for n in ast.walk(fn) if isinstance(n, ast.Name) and n.id == name)
+
+
 def _simple(expr) -> bool:
     if isinstance(expr, (ast.Name, ast.Constant)):
         return True
@@ -239,7 +245,9 @@ class Inliner:
             if f.name in used_as_value:
                 continue
             a = f.node.args
-            if a.vararg or a.kwarg or a.posonlyargs:
+            if a.kwarg or a.posonlyargs:
+                continue
+            if a.vararg and not _vararg_only_forwarded(f.node, a.vararg.arg):
                 continue
             if any(isinstance(n, (ast.Global, ast.Nonlocal, ast.Yield, ast.YieldFrom)) for n in walk_own(f.node)):
                 continue
@@ -334,7 +342,20 @@ class Inliner:
                 if a.vararg or a.kwarg or a.posonlyargs or a.kwonlyargs:
                     continue
                 preds[id(f)] = f
-        if not preds:
+        # private read-only properties whose getter is `return <pure expression>` are the same
+        # thing without the call syntax
+        props = {}
+        assigned_attrs = {t.attr for mod in self.p.modules.values() for n in ast.walk(mod.tree) if isinstance(n, (ast.Assign, ast.AnnAssign, ast.AugAssign)) for t in (n.targets if isinstance(n, ast.Assign) else [n.target]) if isinstance(t, ast.Attribute)}
+        for f in self.p.all_functions():
+            if f.parent is not None or f.cls is None or f.is_async or not f.name.startswith("_") or f.name.startswith("__"):
+                continue
+            if f.decorators != ["property"] or f.name in assigned_attrs:
+                continue
+            body = [s for s in f.node.body if not (isinstance(s, ast.Expr) and isinstance(s.value, ast.Constant))]
+            if len(body) == 1 and isinstance(body[0], ast.Return) and body[0].value is not None and self._pure_expr(body[0].value) and len(f.node.args.args) == 1:
+                if sum(1 for ci in self.p.classes.values() if f.name in ci.methods) == 1:
+                    props[f.name] = f
+        if not preds and not props:
             return False
         changed = False
         outer = self
@@ -350,6 +371,18 @@ class Inliner:
 
             def visit_Lambda(self, node):
                 return node
+
+            def visit_Attribute(self, node):
+                nonlocal changed
+                self.generic_visit(node)
+                g = props.get(node.attr)
+                if g is None or not isinstance(node.ctx, ast.Load) or g is self.func or not _simple(node.value):
+                    return node
+                body = [s for s in g.node.body if not (isinstance(s, ast.Expr) and isinstance(s.value, ast.Constant))]
+                expr = _Renamer({}, {g.node.args.args[0].arg: node.value}).visit(copy.deepcopy(body[0].value))
+                changed = True
+                outer.log.append(f"property {g.qualname} -> {self.func.qualname}:{node.lineno}")
+                return ast.copy_location(expr, node)
 
             def visit_Call(self, node):
                 nonlocal changed
@@ -414,9 +447,15 @@ class Inliner:
                 raise NotInlinable("method called without receiver")
             actual[pos[0]] = recv
             pos = pos[1:]
+        extra_pos = []
         for i, arg in enumerate(call.args):
-            if isinstance(arg, ast.Starred) or i >= len(pos):
+            if isinstance(arg, ast.Starred):
                 raise NotInlinable("argument mismatch")
+            if i >= len(pos):
+                if a.vararg is None:
+                    raise NotInlinable("argument mismatch")
+                extra_pos.append(arg)
+                continue
             actual[pos[i]] = arg
         for kw in call.keywords:
             if kw.arg is None or kw.arg not in params:
@@ -450,6 +489,20 @@ class Inliner:
             body = body[1:]
         ren = _Renamer(rename, subst)
         body = [ren.visit(s) for s in body]
+        if a.vararg is not None:
+            # `callee(*args)` inside the helper becomes `callee(<the extra positional arguments>)`
+            if not all(_simple(x) for x in extra_pos):
+                raise NotInlinable("non-trivial extra positional argument")
+            for st_ in body:
+                for c_ in ast.walk(st_):
+                    if isinstance(c_, ast.Call):
+                        new_args = []
+                        for x in c_.args:
+                            if isinstance(x, ast.Starred) and isinstance(x.value, ast.Name) and x.value.id == a.vararg.arg:
+                                new_args.extend(copy.deepcopy(extra_pos))
+                            else:
+                                new_args.append(x)
+                        c_.args = new_args
 
         if mode == "for":
             loop = stmt
